@@ -329,6 +329,21 @@ func haveIPv6() bool {
 	return ipv6Probe == 1
 }
 
+// haveLinkLocal: the loopback interface has the link-local address fe80::1 (added by bin/check in the private
+// network namespace of a run): senders bound to it have a ZONE in their address
+var llProbe = -1
+
+func haveLinkLocal() bool {
+	if llProbe < 0 {
+		llProbe = 0
+		if c, err := net.ListenUDP("udp6", &net.UDPAddr{IP: net.ParseIP("fe80::1"), Zone: "lo"}); err == nil {
+			c.Close()
+			llProbe = 1
+		}
+	}
+	return llProbe == 1
+}
+
 func freePort() int {
 	l, err := net.Listen("tcp", "127.0.0.1:0")
 	if err != nil {
@@ -899,7 +914,12 @@ func runCase(w *tr.Writer, seed uint64, idx int, focus string) {
 				// is addressed wrongly cannot reach them by accident
 				ra, _ := net.ResolveUDPAddr("udp", dialAddr)
 				la := &net.UDPAddr{IP: net.IPv4(127, 0, 0, byte(2+len(peers)%3))}
-				if cfg.udpFam == "v6" {
+				if cfg.udpFam == "dual" && len(peers)%2 == 1 && haveLinkLocal() {
+					// a link-local sender: its address carries a zone, which RemoteAddr has to report too
+					la = &net.UDPAddr{IP: net.ParseIP("fe80::1"), Zone: "lo"}
+					ra = &net.UDPAddr{IP: net.ParseIP("fe80::1"), Zone: "lo", Port: ra.Port}
+					w.Hist("udp-sender-link-local")
+				} else if cfg.udpFam == "v6" {
 					la = &net.UDPAddr{IP: net.IPv6loopback}
 				} else if len(peers) > 0 && len(peers) < 3 && sharedPort {
 					// several senders with the SAME source port on different addresses
